@@ -46,9 +46,12 @@ def parseable(lst):
     return True
 
 
-def build_obj(h, lst, variant, path):
+def build_obj(h, lst, variant, path, hdr=(), salt=0):
+    """hdr: header-only sections (only a parsed file can have them): `[A]` lines placed at section
+    boundaries chosen by `salt` (after the group-less keys, between two sections, at the end)."""
     s = []
-    if variant == 3 and parseable(lst) and lst:
+    if (variant == 3 and parseable(lst) and lst) or hdr:
+        assert parseable(lst)
         lines = []
         cur = []
         for e in lst:
@@ -56,6 +59,9 @@ def build_obj(h, lst, variant, path):
                 lines.append(b"[" + bytes(e["g"]) + b"]")
                 cur = e["g"]
             lines.append(bytes(e["k"]) + b"=" + bytes(e["v"]))
+        for n, g in enumerate(sorted(hdr)):
+            bounds = [i for i, ln in enumerate(lines) if ln.startswith(b"[")] + [len(lines)]
+            lines.insert(bounds[(salt + n) % len(bounds)], b"[" + bytes(g) + b"]")
         s.append("file %s %s" % (hx(path), hx(b"\n".join(lines) + b"\n")))
         s.append("readfile %d %s x3d x23" % (h, hx(path)))
         return s
@@ -71,9 +77,9 @@ def build_obj(h, lst, variant, path):
     return s
 
 
-def merge_script(i, b, o):
+def merge_script(i, b, o, bh=(), oh=()):
     root = core.ROOT + "/m%d" % (i % 32)
-    s = build_obj(1, b, i % 4, root + "/b.conf") + build_obj(2, o, (i // 4) % 4, root + "/o.conf")
+    s = build_obj(1, b, i % 4, root + "/b.conf", bh, i) + build_obj(2, o, (i // 4) % 4, root + "/o.conf", oh, i // 3)
     s += ["dump 1", "dump 2", "merge 3 1 2", "dump 3", "dump 1", "dump 2", "free 3", "free 1", "free 2"]
     return s
 
@@ -111,14 +117,17 @@ def nontrivial(b, o):
     return bool(kb & ko) or reopen(b) or reopen(o)
 
 
-def run_pairs(exe, pairs, verdict, expect=None):
+def run_pairs(exe, pairs, verdict, expect=None, i0=0):
     """pairs: list of (b, o). Returns list of per-pair event dicts (for trace validation) and counts."""
-    cases = [(i, merge_script(i, b, o)) for i, (b, o) in enumerate(pairs)]
+    pairs = [(p + ((), ()))[:4] for p in pairs]
+    cases = [(i, merge_script(i0 + i, b, o, bh, oh)) for i, (b, o, bh, oh) in enumerate(pairs)]
+    hdrs = {i: (bh, oh) for i, (b, o, bh, oh) in enumerate(pairs)}
+    pairs = [p[:2] for p in pairs]
     res = core.run_cases(exe, cases)
     events = []
     for i, (b, o) in enumerate(pairs):
         out = res.get(i)
-        case = {"kind": "merge", "b": b, "o": o, "variant": [i % 4, (i // 4) % 4]}
+        case = {"kind": "merge", "b": b, "o": o, "variant": [(i0 + i) % 4, ((i0 + i) // 4) % 4], "bh": hdrs[i][0], "oh": hdrs[i][1], "i": i0 + i}
         if out is None or out["crash"]:
             verdict.violation(fingerprint(b, o) + ":crash", dict(case, crash=(out or {}).get("crash")),
                               "econf_mergeFiles crashed / corrupted memory\nbase: %s\nover: %s\n%s" % (
@@ -148,13 +157,17 @@ def run_pairs(exe, pairs, verdict, expect=None):
             want = expect[i]
             if mg["rc"] != "ECONF_SUCCESS" or strip(m) != want:
                 verdict.violation(fingerprint(b, o), dict(case, got=strip(m), want=want, rc=mg["rc"]),
-                                  "merge result differs from MergeRef\nbase: %s\nover: %s\nexpected: %s\nlibrary : %s (%s)" % (
-                                      show(b), show(o), showobs(want), showobs(strip(m)), mg["rc"]))
+                                  "merge result differs from MergeRef\nbase: %s%s\nover: %s%s\nexpected: %s\nlibrary : %s (%s)" % (
+                                      show(b), showh(hdrs[i][0]), show(o), showh(hdrs[i][1]), showobs(want), showobs(strip(m)), mg["rc"]))
     return events
 
 
 def show(l):
     return " ".join("%s/%s=%s" % (core.uncodes(e["g"]) or "-", core.uncodes(e["k"]), core.uncodes(e["v"])) for e in l) or "(empty)"
+
+
+def showh(h):
+    return (" + header-only sections %s" % [core.uncodes(g) for g in h]) if h else ""
 
 
 def showobs(o):
@@ -187,14 +200,19 @@ def check(pid, tier, seed):
     maxlen = 3 if tier == "quick" else 4
     # model check one bound deeper than what is replayed
     mc = core.tlc_ok("MC_Merge", write_cfg(cfg_text(["MergeIsRef", "WithinBounds", "Complete"],
-                                                    {"MaxLen": maxlen + 1, "Export": "FALSE"})), timeout=3000)
+                                                    {"MaxLen": maxlen + 1, "Export": "FALSE", "Hdr": "FALSE"})), timeout=3000)
     if mc.violated:
         verdict.violation("C03:model", {"tlc": mc.out[-3000:]}, "TLC: MergeImpl violates MergeRef / bounds\n" + mc.out[-1500:])
-    r, recs, total = export("MC_Merge", {"MaxLen": maxlen, "Export": "TRUE"}, ["MergeIsRef", "WithinBounds"], seed=seed)
+    r, recs, total = export("MC_Merge", {"MaxLen": maxlen, "Export": "TRUE", "Hdr": "FALSE"}, ["MergeIsRef", "WithinBounds"], seed=seed)
     pairs = [(x["b"], x["o"]) for x in recs]
     expect = [x["exp"] for x in recs]
     run_pairs(exe, pairs, verdict, expect)
     nn = sum(1 for b, o in pairs if nontrivial(b, o))
+    # header-only sections on either side (parsed files only)
+    r2, recs2, total2 = export("MC_Merge", {"MaxLen": maxlen - 1, "Export": "TRUE", "Hdr": "TRUE"}, ["MergeIsRef", "WithinBounds"], seed=seed)
+    recs2 = [x for x in recs2 if (x["bh"] or x["oh"]) and parseable(x["b"]) and parseable(x["o"])]
+    hpairs = [(x["b"], x["o"], [tuple(g) for g in x["bh"]], [tuple(g) for g in x["oh"]]) for x in recs2]
+    run_pairs(exe, hpairs, verdict, [x["exp"] for x in recs2])
     # random larger pairs, validated by TLC
     rnd = random.Random(seed)
     npairs = 400 if tier == "quick" else 6000
@@ -222,8 +240,8 @@ def check(pid, tier, seed):
     samples = [{"base": show(b), "override": show(o), "expected": showobs(e)} for (b, o), e in list(zip(pairs, expect))[1000:1003]]
     cov = {"states": mc.distinct, "transitions": mc.generated, "traces_validated_against_impl": len(pairs) + acc,
            "evaluations": len(pairs) + len(rp), "distinct_nontrivial": nn,
-           "rule": "TLC: all pairs of duplicate-free entry lists of length <= %d over {group-less,A,B} x {x,y} (model-checked: %d pairs; exported and replayed through setters on newKeyFile/newIniFile/newKeyFile_with_options objects and parsed files: all %d pairs of length <= %d) + %d random pairs of 0..30 entries validated by Trace_Merge + %d mixed histories with merges of parsed and built objects validated against the root specification (Trace_Econf). non-trivial = shared key, an empty side, or a re-opened section." % (
-               maxlen + 1, mc.distinct, len(pairs), maxlen, len(rp), nmix),
+           "rule": "TLC: all pairs of duplicate-free entry lists of length <= %d over {group-less,A,B} x {x,y} (model-checked: %d pairs; exported and replayed through setters on newKeyFile/newIniFile/newKeyFile_with_options objects and parsed files: all %d pairs of length <= %d; %d pairs of length <= %d in which either side is a parsed file with header-only sections from {A,B} at varying positions) + %d random pairs of 0..30 entries validated by Trace_Merge + %d mixed histories with merges of parsed and built objects validated against the root specification (Trace_Econf). non-trivial = shared key, an empty side, or a re-opened section." % (
+               maxlen + 1, mc.distinct, len(pairs), maxlen, len(hpairs), maxlen - 1, len(rp), nmix),
            "samples": samples, "exhaustive": True,
            "trusted_base": ["TLC 1.8.0", "gcc ASan/UBSan", "drv.c"]}
     core.write_evidence(pid, tier, seed, "model_checking", cov,
@@ -239,5 +257,7 @@ def replay(pid, path):
     exe = core.build("asan")
     c = rec["case"]
     v = core.Verdict(pid)
-    run_pairs(exe, [(c["b"], c["o"])], v)
+    i = c.get("i", 0)
+    # the position of the pair selects the object kinds and header positions
+    run_pairs(exe, [(c["b"], c["o"], [tuple(g) for g in c.get("bh", [])], [tuple(g) for g in c.get("oh", [])])], v, i0=i)
     return v.finish()
